@@ -8,6 +8,9 @@
 
 mod ctx;
 mod driver;
+mod fgen;
+mod find;
+mod tree;
 mod prop;
 mod props;
 mod rng;
@@ -27,6 +30,7 @@ fn usage() -> ! {
 macro_rules! dispatch {
     ($id:expr, $f:ident ( $($arg:expr),* )) => {
         match $id {
+            "C02" => driver::$f::<props::c02::C02>($($arg),*),
             "C04" => driver::$f::<props::c04::C04>($($arg),*),
             "C05" => driver::$f::<props::c05::C05>($($arg),*),
             "C06" => driver::$f::<props::c06::C06>($($arg),*),
